@@ -1192,3 +1192,7 @@ def probe_rdkit_reader_contracts(tier, seed):
 
 
 PROBES = [probe_rdkit_reader_contracts]
+
+
+for _u in UNITS:
+    _u.data_files = ['pgradd/RINGParser/Grammar.py']      # the tree shapes are derived from the grammar objects: a changed grammar is a changed subject (ledger)
